@@ -18,8 +18,8 @@ import (
 type cticker struct {
 	now   int64
 	noise func() int64
-	last  map[int]int64   // last reading per thread
-	first map[int]int64   // first reading of the current operation per thread
+	last  map[int]int64 // last reading per thread
+	first map[int]int64 // first reading of the current operation per thread
 	nread map[int]int
 	ctor  []int64 // readings handed out before the controlled run (constructor)
 }
@@ -70,8 +70,8 @@ type cntRec struct {
 }
 
 type bcfg struct {
-	thr                             float64
-	minReq                          int64
+	thr                           float64
+	minReq                        int64
 	trial, open, window, interval int64
 }
 
@@ -234,11 +234,16 @@ func epochsStr(es []*epoch) string {
 	return strings.Join(s, " ")
 }
 
+const nowAuto = math.MinInt64 // "set" with this value: the harness computes the reading at run time
+
+// tickBase: origin of the ticker axis of the current run ("for all ticker values": positive, zero, negative, far from zero)
+var tickBase int64 = 1000
+
 func genBreakerProgram(rng *rand.Rand, family string, c bcfg) (ths []bthread) {
 	switch family {
 	case "c10":
 		// rounds of concurrent reports at a constant ticker value, each followed by a quiescent probe
-		now := int64(1000)
+		now := tickBase
 		ph := 0
 		for round := 0; round < 2+rng.Intn(3); round++ {
 			switch rng.Intn(6) {
@@ -261,11 +266,11 @@ func genBreakerProgram(rng *rand.Rand, family string, c bcfg) (ths []bthread) {
 			}
 			ph++
 			// quiescent probe: a single report beyond the update interval must roll and report exactly
-			ths = append(ths, bthread{ops: []bop{{kind: "set", now: -1}, {kind: "succ"}}, phase: ph}) // -1: harness computes curTs+interval+r at run time
+			ths = append(ths, bthread{ops: []bop{{kind: "set", now: nowAuto}, {kind: "succ"}}, phase: ph}) // nowAuto: harness computes curTs+interval+r at run time
 			ph++
 		}
 	default: // c03
-		now := int64(1000)
+		now := tickBase
 		// phase 0: trip the circuit sequentially (two failures, advance past the interval, one more failure)
 		trip := []bop{{kind: "set", now: now}, {kind: "fail"}, {kind: "fail"}, {kind: "set", now: now + c.interval}, {kind: "fail"}, {kind: "can"}}
 		ths = append(ths, bthread{ops: trip, phase: 0})
@@ -325,7 +330,8 @@ func runBreakerConc(fs *flag.FlagSet, args []string) {
 		}
 		r := &brun{cfg: c}
 		fastrand.Next = func() uint32 { return probeEdges[rng.Intn(len(probeEdges))] }
-		r.tk = &cticker{now: 1000, last: map[int]int64{}, first: map[int]int64{}, nread: map[int]int{}}
+		tickBase = []int64{1000, 1000, 1000, 0, -1, -5000, -(1 << 40), 1 << 50, -1000000}[rng.Intn(9)]
+		r.tk = &cticker{now: tickBase, last: map[int]int64{}, first: map[int]int64{}, nread: map[int]int{}}
 		if family == "c03" && rng.Intn(2) == 0 {
 			r.tk.noise = func() int64 { return []int64{0, 0, 0, 1, -1, 2}[rng.Intn(6)] }
 		}
@@ -340,7 +346,7 @@ func runBreakerConc(fs *flag.FlagSet, args []string) {
 		r.cb = b
 		r.epochs = []*epoch{{kind: "C", start: 0, by: -1}}
 		ths := genBreakerProgram(rng, family, c)
-		fmt.Fprintf(out, "reset breaker %s %d %d %d %d %d %d %d\n", fmt.Sprintf("%x", math.Float64bits(c.thr)), c.minReq, c.trial, c.open, c.window, c.interval, r.tk.ctor[0], r.tk.ctor[1])
+		fmt.Fprintf(out, "reset breaker %s %d %d %d %d %d %d %d\n", fmt.Sprintf("%x", math.Float64bits(c.thr)), c.minReq, c.trial, c.open, c.window, c.interval, ctorTick(r.tk.ctor, 0), ctorTick(r.tk.ctor, 1))
 		s := newSched(rng, len(ths))
 		var bodies []func()
 		var desc []string
@@ -350,12 +356,12 @@ func runBreakerConc(fs *flag.FlagSet, args []string) {
 			succ bool
 		}
 		var evs []ev
-		curTs := int64(1000)
+		curTs := tickBase
 		for i, th := range ths {
 			i, th := i, th
 			s.phase[i] = th.phase
 			desc = append(desc, fmt.Sprintf("t%d=%s", i, th))
-			if family == "c10" && len(th.ops) == 2 && th.ops[0].kind == "set" && th.ops[0].now == -1 {
+			if family == "c10" && len(th.ops) == 2 && th.ops[0].kind == "set" && th.ops[0].now == nowAuto {
 				// quiescent probe
 				bodies = append(bodies, func() {
 					vsched.Point()
@@ -467,3 +473,12 @@ func runBreakerConc(fs *flag.FlagSet, args []string) {
 }
 
 func init() { modes["breaker"] = runBreakerConc }
+
+// ctorTick: the k-th ticker reading of the constructor (the model expects two: the first bucket's timestamp and the CLOSED state's
+// deadline base); a constructor that reads the ticker fewer times is left to the acceptor, the harness must not crash on it
+func ctorTick(ct []int64, k int) int64 {
+	if k < len(ct) {
+		return ct[k]
+	}
+	return 0
+}
